@@ -1,29 +1,40 @@
 """C17 -- planner rollback restores the exact earlier state (DESIGN.md section 4, C17).
 
-Demoted from the DESIGN's "P": plan_state is a dict-of-lists/refcount structure mutated through aliases
-(rev_blockers lists, PigeonHoledSlots lists keyed by symbolic package keys); the engine has no map-of-sequence
-theory with aliasing, so no unbounded contract proof is claimed.  What stands in is a bounded, exhaustive
-enumeration of planner histories on the real code, compared with a replay of the surviving prefix."""
+Three layers.  (1) Proved, for an arbitrary planner state: every operation class's revert undoes its apply (C17.operations; the state is
+abstracted to total maps, see the comment above t_ops).  (2) plan_state.backtrack calls revert once per newer operation, newest first,
+and cuts the plan at the position -- checked for plans of <= 4 operations (bounded: the loop runs over enumerate(reversed(slice))).
+(3) A bounded, exhaustive enumeration of planner histories on the real code, compared with a replay of the surviving prefix.
+The step from (1) + (2) to the statement is an induction over the plan that is argued in DESIGN.md, not machine-checked, which is why
+the level stays `other`."""
 import itertools
 from pyvc.api import Task
 
 PROPERTY = "C17"
 FILE = "src/pkgcore/resolver/state.py"
 LEVEL = "other"
-EXPLANATION = ("bounded stand-in only (nothing proved): every history of up to 4 planner operations over 5 packages (two sharing "
-               "key and slot, two equal but distinct: one version from two repositories), 3 blockers with fixed match tables and 2 choice points is applied to the real plan_state, rolled back "
-               "to every earlier position, and the resulting state (slot occupancy, limiters, package bindings, reverse blockers, "
-               "blocker reference counts, vdb filter, forced restrictions, plan length) is compared, as multisets, with the state "
-               "obtained by replaying the surviving prefix on a fresh plan_state.")
+EXPLANATION = ("per-operation proofs plus bounded stand-ins: (1) unbounded proof, for an arbitrary planner state abstracted to its components "
+               "(slot table, limiters, package-to-choice bindings keyed by ==, reverse blocker lists, the three reference-counted sets), that for "
+               "add / remove / replace / incref / decref / hardref / backref operations revert restores every component apply changed, that a "
+               "refused add or replace leaves the state unchanged and records nothing, and that replace and remove hand the displaced package's "
+               "blockers to decref operations of their own; (2) plan_state.backtrack on plans of <= 4 operations, every position and every "
+               "failing revert: reverts newest first, once each, cuts the plan at the position (bounded); (3) every history of up to 4 planner "
+               "operations over 5 packages (two sharing key and slot, two equal but distinct: one version from two repositories), 3 blockers with "
+               "fixed match tables and 2 choice points is applied to the real plan_state, rolled back to every earlier position and compared, as "
+               "multisets, with a replay of the surviving prefix (bounded).  The induction from (1) and (2) to whole histories is not machine-checked.")
 MANIFEST = {
     "category": "other",
     "text": EXPLANATION,
-    "note": "Bounded: histories <= 4 ops over a fixed universe; no unbounded claim.  Reason for not proving: the state is a "
-            "dict-of-mutable-lists structure with aliasing that the VC generator does not model (DESIGN section 4, C17 addendum).",
-    "technique": "bounded exhaustive enumeration of operation histories on the real code (stand-in for contract verification; labelled bounded)",
+    "note": "Trusted in (1): PigeonHoledSlots' methods follow the ghost slot table (fill appends iff no conflict or forced, remove drops every "
+            "occurrence of that object, limiters likewise), RefCountingSet counts, dict keys compare by ==; caller preconditions (a package object "
+            "is planned once, remove / replace name a planned package, replace is never forced).  _remove_pkg_blockers' loop is abstracted by its "
+            "contract (one decref operation per blocker).  Bounded in (2), (3).  KF-C17-1 is visible in (1) as replace_op.revert raising when the "
+            "limiter answer before and after dropping the displaced package's own blockers differ.",
+    "technique": "contract proofs per operation over an abstract state (z3 arrays) + bounded loop / history enumeration on the real code (labelled bounded)",
 }
-ASSUMPTIONS = ["bounded universe: 5 packages, 3 blockers, 2 choice points, histories of <= 4 operations",
-               "states are compared as multisets (a reverted remove re-appends at the end of a slot list)"]
+ASSUMPTIONS = ["bounded universe in the history enumeration: 5 packages, 3 blockers, 2 choice points, histories of <= 4 operations",
+               "states are compared as multisets (a reverted remove re-appends at the end of a slot list)",
+               "PigeonHoledSlots, RefCountingSet and dict behave as the ghost state of C17.operations says (their code is not under contract here)",
+               "the induction over the plan (each revert meets the state its apply left, because newer operations are reverted first) is argued, not machine-checked"]
 
 
 class Pkg:
@@ -192,11 +203,400 @@ def enum_histories(seed):
             "cases": cases, "failures": fails}
 
 
+# =============================================================== per-operation proofs: revert undoes apply ====
+# The planner state is abstracted to its components as total maps (multiplicities for the list- and refcount-shaped ones):
+#   slots : package object -> how often it sits in the slot table           (PigeonHoledSlots.slot_dict, keyed by identity)
+#   lims  : (blocker, key) -> how often it is an active limiter             (PigeonHoledSlots.limiters)
+#   has / val : package (by ==) -> bound?, its choice point                  (plan.pkg_choices, a dict: keys compare by ==)
+#   rev   : (choice point, blocker, key) -> multiplicity                    (plan.rev_blockers, lists; an emptied list is dropped)
+#   refs / vdb / forced : blocker / package (by ==) / restriction -> count  (RefCountingSets)
+# Every operation's apply is run on an arbitrary such state, then its revert on the state apply left; the obligation is that every
+# component is back to what it was.  plan_state.backtrack is proved to call revert once per operation after the position, newest
+# first, and to cut the plan there; by induction over the plan (the state revert meets is the one apply left, because everything
+# newer has been reverted already) rollback restores the state at the position.
+import z3
+from pyvc.api import call, Interp, LoopSpec
+from pyvc.interp import PyRaise
+from pyvc.models import Model, ModelHost
+from pyvc.sym import KRef, KBool, KInt, SBool, SInt, SObj, SRef, And, Or, Not, OutOfSubset, fresh_name
+from pyvc import theory
+
+PkgK, AtomK, ChoiceK, KeyK = KRef("Pkg"), KRef("Blocker"), KRef("ChoicePoint"), KRef("Key")
+_EQ = z3.DeclareSort("PkgEqClass")
+
+
+class _State:
+    """the abstract planner state (z3 arrays), mutated by the ghost objects below"""
+    COMPONENTS = ("slots", "lims", "has", "val", "rev", "revlen", "revhas", "refs", "vdb", "forced")
+
+    def __init__(self, tag):
+        A = z3.ArraySort
+        I = z3.IntSort()
+        self.slots = z3.Const(fresh_name(tag + "_slots"), A(PkgK.sort, I))
+        self.lims = z3.Const(fresh_name(tag + "_lims"), A(AtomK.sort, A(KeyK.sort, I)))
+        self.has = z3.Const(fresh_name(tag + "_has"), A(_EQ, z3.BoolSort()))
+        self.val = z3.Const(fresh_name(tag + "_val"), A(_EQ, ChoiceK.sort))
+        self.rev = z3.Const(fresh_name(tag + "_rev"), A(ChoiceK.sort, A(AtomK.sort, A(KeyK.sort, I))))
+        self.revlen = z3.Const(fresh_name(tag + "_revlen"), A(ChoiceK.sort, I))
+        self.revhas = z3.Const(fresh_name(tag + "_revhas"), A(ChoiceK.sort, z3.BoolSort()))   # the dict holds a list for that choice point
+        self.refs = z3.Const(fresh_name(tag + "_refs"), A(AtomK.sort, I))
+        self.vdb = z3.Const(fresh_name(tag + "_vdb"), A(_EQ, I))
+        self.forced = z3.Const(fresh_name(tag + "_forced"), A(AtomK.sort, I))
+        self.appended = []
+
+    def snapshot(self):
+        return {c: getattr(self, c) for c in self.COMPONENTS}
+
+
+def _ghost_plan(ex, st, cls_of, conflicts):
+    """plan_state as the operations see it; `conflicts(kind, obj)` supplies the (arbitrary) answer of the slot table's conflict queries"""
+    def raise_(e):
+        raise PyRaise(e)
+
+    class Slots(ModelHost):
+        def getattr(self, it, name):
+            if name == "fill_slotting":
+                def f(it_, obj, force=False):
+                    l = conflicts("fill", obj)
+                    ins = Or(Not(SBool(l.length().t > 0)), force if isinstance(force, SBool) else SBool(z3.BoolVal(bool(force))))
+                    st.slots = z3.If(ins.t, z3.Store(st.slots, obj.t, st.slots[obj.t] + 1), st.slots)
+                    return l
+                return Model(f, "PigeonHoledSlots.fill_slotting")
+            if name == "remove_slotting":
+                def f(it_, obj):
+                    if not ex.branch(SBool(st.slots[obj.t] > 0)):
+                        raise_(KeyError("obj isn't slotted"))
+                    st.slots = z3.Store(st.slots, obj.t, 0)     # every occurrence of that object goes (the filter is `x is not obj`)
+                return Model(f, "PigeonHoledSlots.remove_slotting")
+            if name == "get_conflicting_slot":
+                return Model(lambda it_, pkg: conflicts("occupant", pkg), "PigeonHoledSlots.get_conflicting_slot")
+            if name == "check_limiters":
+                return Model(lambda it_, obj: conflicts("limiters", obj), "PigeonHoledSlots.check_limiters")
+            if name == "add_limiter":
+                def f(it_, atom, key=None):
+                    st.lims = z3.Store(st.lims, atom.t, z3.Store(st.lims[atom.t], key.t, st.lims[atom.t][key.t] + 1))
+                    return conflicts("matches", atom)
+                return Model(f, "PigeonHoledSlots.add_limiter")
+            if name == "remove_limiter":
+                def f(it_, atom, key=None):
+                    if not ex.branch(SBool(st.lims[atom.t][key.t] > 0)):
+                        raise_(KeyError("obj isn't slotted"))
+                    st.lims = z3.Store(st.lims, atom.t, z3.Store(st.lims[atom.t], key.t, 0))
+                return Model(f, "PigeonHoledSlots.remove_limiter")
+            self._unmodelled(name)
+
+    class Choices(ModelHost):
+        def getitem(self, it, k):
+            c = cls_of(k)
+            if not ex.branch(SBool(z3.Select(st.has, c))):
+                raise_(KeyError("pkg_choices"))
+            return ChoiceK.wrap(z3.Select(st.val, c))
+
+        def setitem(self, it, k, v):
+            c = cls_of(k)
+            st.has, st.val = z3.Store(st.has, c, True), z3.Store(st.val, c, v.t)
+
+        def delitem(self, it, k):
+            c = cls_of(k)
+            if not ex.branch(SBool(z3.Select(st.has, c))):
+                raise_(KeyError("pkg_choices"))
+            st.has = z3.Store(st.has, c, False)
+
+        def contains(self, it, k):
+            return SBool(z3.Select(st.has, cls_of(k)))
+
+    class RevList(ModelHost):
+        """plan.rev_blockers[choices]: a view on one choice point's list"""
+        def __init__(self, ch):
+            self.ch = ch
+
+        def truth_term(self, it):
+            return st.revlen[self.ch.t] > 0
+
+        def _bump(self, pair, d):
+            b, k = pair
+            inner = st.rev[self.ch.t]
+            st.rev = z3.Store(st.rev, self.ch.t, z3.Store(inner, b.t, z3.Store(inner[b.t], k.t, inner[b.t][k.t] + d)))
+            st.revlen = z3.Store(st.revlen, self.ch.t, st.revlen[self.ch.t] + d)
+
+        def getattr(self, it, name):
+            if name == "append":
+                return Model(lambda it_, pair: self._bump(pair, 1), "list.append")
+            if name == "remove":
+                def f(it_, pair):
+                    b, k = pair
+                    if not ex.branch(SBool(st.rev[self.ch.t][b.t][k.t] > 0)):
+                        raise_(ValueError("list.remove(x): x not in list"))
+                    self._bump(pair, -1)
+                return Model(f, "list.remove")
+            self._unmodelled(name)
+
+    class Rev(ModelHost):
+        def getitem(self, it, ch):
+            if not ex.branch(SBool(z3.Select(st.revhas, ch.t))):
+                raise_(KeyError("rev_blockers"))
+            return RevList(ch)
+
+        def delitem(self, it, ch):
+            if not ex.branch(SBool(z3.Select(st.revhas, ch.t))):
+                raise_(KeyError("rev_blockers"))
+            # only ever done for an emptied list; with entries left it would lose them
+            if not ex.branch(SBool(st.revlen[ch.t] == 0)):
+                st.rev = z3.Store(st.rev, ch.t, z3.K(AtomK.sort, z3.K(KeyK.sort, z3.IntVal(0))))
+                st.revlen = z3.Store(st.revlen, ch.t, 0)
+            st.revhas = z3.Store(st.revhas, ch.t, False)
+
+        def getattr(self, it, name):
+            if name == "setdefault":
+                def f(it_, ch, default=None):
+                    st.revhas = z3.Store(st.revhas, ch.t, True)
+                    return RevList(ch)
+                return Model(f, "dict.setdefault")
+            if name == "get":
+                self._unmodelled("get (only _remove_pkg_blockers reads the lists that way; it is under its own contract)")
+            self._unmodelled(name)
+
+    class RefSet(ModelHost):
+        def __init__(self, comp, index):
+            self.comp, self.index = comp, index
+
+        def _arr(self):
+            return getattr(st, self.comp)
+
+        def contains(self, it, x):
+            return SBool(self._arr()[self.index(x)] > 0)
+
+        def getattr(self, it, name):
+            if name == "add":
+                def f(it_, x):
+                    setattr(st, self.comp, z3.Store(self._arr(), self.index(x), self._arr()[self.index(x)] + 1))
+                return Model(f, "RefCountingSet.add")
+            if name == "remove":
+                def f(it_, x):
+                    if not ex.branch(SBool(self._arr()[self.index(x)] > 0)):
+                        raise_(KeyError("RefCountingSet.remove"))
+                    setattr(st, self.comp, z3.Store(self._arr(), self.index(x), self._arr()[self.index(x)] - 1))
+                return Model(f, "RefCountingSet.remove")
+            self._unmodelled(name)
+
+    class PlanList(ModelHost):
+        def getattr(self, it, name):
+            if name == "append":
+                return Model(lambda it_, op: st.appended.append(op), "list.append")
+            self._unmodelled(name)
+
+    class Plan(ModelHost):
+        def __init__(self):
+            self.parts = {"state": Slots(), "pkg_choices": Choices(), "rev_blockers": Rev(), "blockers_refcnt": RefSet("refs", lambda x: x.t),
+                          "vdb_filter": RefSet("vdb", cls_of), "forced_restrictions": RefSet("forced", lambda x: x.t), "plan": PlanList()}
+            self.removed_blockers_of = []
+
+        def getattr(self, it, name):
+            if name in self.parts:
+                return self.parts[name]
+            if name == "current_state":
+                return len(st.appended)
+            if name == "_remove_pkg_blockers":
+                # contract of the callee (its loop applies one decref operation per blocker of the choice point, each of which is
+                # an operation of the plan in its own right and is proved on its own): here it only has to be called with the
+                # displaced package's choice point; the blocker components it changes belong to those operations
+                def f(it_, ch):
+                    self.removed_blockers_of.append(ch)
+                    for comp in ("lims", "rev", "revlen", "revhas", "refs"):
+                        setattr(st, comp, z3.Const(fresh_name("after_decrefs_" + comp), getattr(st, comp).sort()))
+                return Model(f, "plan_state._remove_pkg_blockers")
+            if name == "backtrack":
+                def f(it_, pos):
+                    self.backtracked_to = pos
+                return Model(f, "plan_state.backtrack")
+            self._unmodelled(name)
+    return Plan()
+
+
+def _same_state(ex, P, before, st, skip=()):
+    for c in _State.COMPONENTS:
+        if c in skip:
+            continue
+        a, b = before[c], getattr(st, c)
+        if c == "val":     # the choice bound to a package only matters where a package is bound
+            x = z3.Const(fresh_name("k"), _EQ)
+            cond = z3.ForAll([x], z3.Implies(z3.Select(st.has, x), z3.Select(a, x) == z3.Select(b, x)))
+        else:
+            cond = a == b
+        ex.oblige(f"{P}.ensures.{c}_restored", SBool(cond))
+
+
+def t_ops(ex):
+    """apply then revert of one planner operation on an arbitrary state"""
+    import pkgcore.resolver.state as S
+    kind = ("add_op", "add_op_refused", "remove_op", "replace_op", "replace_op_refused", "incref_forward_block_op", "decref_forward_block_op", "add_hardref_op", "add_backref_op")[ex.choose(9)]
+    cls_name = kind.replace("_refused", "")
+    P = f"C17.{kind}"
+    st = _State("s")
+    cls_f = theory.ufun("pkg_eq_class", PkgK.sort, _EQ)
+    cls_of = lambda x: cls_f(x.t)
+    pkg, old, blocker, ch, key = PkgK.fresh("pkg"), PkgK.fresh("occupant"), AtomK.fresh("blocker"), ChoiceK.fresh("choices"), KeyK.fresh("key")
+    force = KBool.fresh("force")
+    answers = {}
+
+    def conflicts(kind_, obj):
+        from pyvc.sym import KSeq
+        if kind_ == "occupant":
+            return old
+        k = (kind_, len([a for a in answers if a[0] == kind_]))
+        answers[k] = KSeq(KRef("Conflict")).fresh(f"conflicts_{kind_}")
+        return answers[k]
+    plan = _ghost_plan(ex, st, cls_of, conflicts)
+    it = Interp(ex, label=P)
+    # caller preconditions of the planner API, and representation invariants of the state
+    zero_i = lambda arr, i: SBool(arr[i] == 0)
+    for arr in (st.slots,):
+        x = z3.Const(fresh_name("p"), PkgK.sort)
+        ex.assume(SBool(z3.ForAll([x], arr[x] >= 0)))
+    a_, k_, c_ = z3.Const(fresh_name("a"), AtomK.sort), z3.Const(fresh_name("k"), KeyK.sort), z3.Const(fresh_name("c"), ChoiceK.sort)
+    e_ = z3.Const(fresh_name("e"), _EQ)
+    ex.assume(SBool(z3.ForAll([a_, k_], st.lims[a_][k_] >= 0)))
+    ex.assume(SBool(z3.ForAll([c_, a_, k_], st.rev[c_][a_][k_] >= 0)))
+    ex.assume(SBool(z3.ForAll([c_], st.revlen[c_] >= 0)))
+    ex.assume(SBool(z3.ForAll([c_, a_, k_], z3.Implies(st.revlen[c_] == 0, st.rev[c_][a_][k_] == 0))))
+    ex.assume(SBool(z3.ForAll([c_], z3.Select(st.revhas, c_) == (st.revlen[c_] > 0))))   # an emptied list is dropped from the dict
+    ex.assume(SBool(z3.ForAll([a_], z3.And(st.refs[a_] >= 0, st.forced[a_] >= 0))))
+    ex.assume(SBool(z3.ForAll([e_], st.vdb[e_] >= 0)))
+    # an active limiter is referenced, and the other way round (incref / decref keep this; it is what makes "not in refcnt" mean "not a limiter")
+    ex.assume(SBool(z3.ForAll([k_], z3.Implies(st.refs[blocker.t] == 0, st.lims[blocker.t][k_] == 0))))
+    ex.assume(SBool(z3.Implies(st.refs[blocker.t] > 0, st.lims[blocker.t][key.t] == 1)))
+    before = st.snapshot()
+    ex.inputs.update({"operation": kind, "blocker_refcount_before": SInt(st.refs[blocker.t]), "limiter_multiplicity_before": SInt(st.lims[blocker.t][key.t]),
+                      "reverse_blocker_entries_before": SInt(st.rev[ch.t][blocker.t][key.t]), "reverse_blocker_list_length_before": SInt(st.revlen[ch.t]),
+                      "new_package_equals_the_displaced_one": SBool(cls_of(pkg) == cls_of(old))})
+    # replace is never forced (plan.py builds it without force); add may be (installed packages are inserted that way)
+    fields = {"choices": ch, "pkg": pkg, "force": force if cls_name == "add_op" else False}
+    if cls_name in ("incref_forward_block_op", "decref_forward_block_op"):
+        fields = {"choices": ch, "blocker": blocker, "key": key}
+    if cls_name == "add_hardref_op":
+        fields = {"restriction": blocker}
+    if cls_name == "replace_op":
+        fields.update({"old_pkg": None, "old_choices": None, "force_old": False})
+    op = SObj(getattr(S, cls_name), fields)
+    if cls_name == "add_op":
+        ex.assume(SBool(st.slots[pkg.t] == 0))                       # a package object is planned once
+        ex.assume(Not(SBool(z3.Select(st.has, cls_of(pkg)))))         # and nothing equal to it is bound
+    if cls_name == "remove_op":
+        ex.assume(SBool(st.slots[pkg.t] == 1))
+        ex.assume(SBool(z3.Select(st.has, cls_of(pkg))))
+        ex.assume(SBool(z3.Select(st.val, cls_of(pkg)) == ch.t))      # remove_op is built from the package's own choice point
+    if cls_name == "replace_op":
+        ex.assume(SBool(st.slots[old.t] == 1))
+        ex.assume(SBool(st.slots[pkg.t] == 0))
+        ex.assume(SBool(pkg.t != old.t))
+        ex.assume(SBool(z3.Select(st.has, cls_of(old))))
+        # the new package may well be == the one it replaces (the same version from another repository); nothing else equal to it is bound
+        ex.assume(SBool(z3.Or(cls_of(pkg) == cls_of(old), z3.Not(z3.Select(st.has, cls_of(pkg))))))
+    if cls_name == "decref_forward_block_op":
+        ex.assume(SBool(st.rev[ch.t][blocker.t][key.t] > 0))
+        ex.assume(SBool(st.refs[blocker.t] > 0))
+    out = call(it, it.target(FILE, f"{cls_name}.apply"), op, plan)
+    refused_wanted = kind.endswith("_refused")
+    if out.raised:
+        ex.oblige(f"{P}.apply.raises.nothing", False, kind="exceptional-postcondition", note=str(out.exc))
+        return
+    r = out.value
+    refused = bool(getattr(r, "length", None)) and ex.branch(SBool(r.length().t > 0)) if r is not None and hasattr(r, "length") else False
+    appended = list(st.appended)
+    if cls_name in ("add_op", "replace_op") and (refused and not (cls_name == "add_op" and ex.branch(force))) :
+        if not refused_wanted:
+            return
+        # refused: the conflicts are handed back and the state is what it was (for replace: up to the blocker operations its own
+        # rollback to the entry position undoes)
+        ex.cover("refused")
+        if cls_name == "replace_op":
+            ex.oblige(f"{P}.ensures.rolls_its_blocker_operations_back_to_the_entry_position", getattr(plan, "backtracked_to", None) == 0)
+            _same_state(ex, P, before, st, skip=("lims", "rev", "revlen", "revhas", "refs"))
+        else:
+            _same_state(ex, P, before, st)
+        ex.oblige(f"{P}.ensures.nothing_recorded_in_the_plan", appended == [])
+        return
+    if refused_wanted:
+        return
+    ex.cover("applied")
+    ex.oblige(f"{P}.apply.ensures.records_itself_once", appended == [op])
+    mid = st.snapshot()
+    rv = call(it, it.target(FILE, f"{cls_name}.revert"), op, plan)
+    if cls_name == "replace_op":
+        # KF-C17-1: whether the displaced package is forced back is decided from the limiters *before* its own blockers were dropped;
+        # revert meets the state after; when the two answers differ revert raises
+        lim0 = answers.get(("limiters", 0))
+        fill_back = answers.get(("fill", 1))
+        differ = SBool((lim0.length().t > 0) != (fill_back.length().t > 0)) if lim0 is not None and fill_back is not None else False
+        ex.oblige(f"{P}.revert.raises.nothing", not rv.raised, kind="exceptional-postcondition", known=[("KF-C17-1", differ)], note=str(rv.exc) if rv.raised else "")
+    else:
+        ex.oblige(f"{P}.revert.raises.nothing", not rv.raised, kind="exceptional-postcondition", note=str(rv.exc) if rv.raised else "")
+    if rv.raised:
+        return
+    ex.oblige(f"{P}.revert.ensures.records_nothing", list(st.appended) == appended)
+    if cls_name == "replace_op":
+        # the blocker components were changed by the decref operations replace pushed before itself; they are theirs to restore
+        ex.oblige(f"{P}.apply.ensures.drops_the_displaced_packages_blockers", len(plan.removed_blockers_of) == 1)
+        for c in ("lims", "rev", "revlen", "revhas", "refs"):
+            ex.oblige(f"{P}.revert.frame.{c}_untouched", SBool(getattr(st, c) == mid[c]))
+        _same_state(ex, P, before, st, skip=("lims", "rev", "revlen", "revhas", "refs"))
+    elif cls_name == "remove_op":
+        # likewise: remove drops the package's blockers through decref operations of their own
+        ex.oblige(f"{P}.apply.ensures.drops_the_packages_blockers", len(plan.removed_blockers_of) == 1 and plan.removed_blockers_of[0] is ch)
+        for c in ("lims", "rev", "revlen", "revhas", "refs"):
+            ex.oblige(f"{P}.revert.frame.{c}_untouched", SBool(getattr(st, c) == mid[c]))
+        _same_state(ex, P, before, st, skip=("lims", "rev", "revlen", "revhas", "refs"))
+    else:
+        _same_state(ex, P, before, st)
+
+
+def t_backtrack(ex):
+    """plan_state.backtrack(pos) on a plan of k operations: revert is called once on each operation after the position, newest first, and
+    the plan is cut at the position; when a revert raises, exactly the operations already reverted are cut off"""
+    import pkgcore.resolver.state as S
+    k = ex.choose(5)
+    pos = ex.choose(k + 1)
+    failing = ex.choose(k - pos + 1)    # 0: none; j: the j-th revert (newest first) raises
+    P = f"C17.backtrack[{k} operations, to position {pos}{', revert #%d raises' % failing if failing else ''}]"
+    calls = []
+
+    class Boom(Exception):
+        pass
+
+    class Op(ModelHost):
+        def __init__(self, i):
+            self.i = i
+
+        def getattr(self, it, name):
+            if name == "revert":
+                def f(it_, plan):
+                    calls.append(self.i)
+                    if failing and len(calls) == failing:
+                        raise PyRaise(Boom(f"revert of operation {self.i}"))
+                return Model(f, f"op{self.i}.revert")
+            self._unmodelled(name)
+    ops = [Op(i) for i in range(k)]
+    me = SObj(S.plan_state, {"plan": list(ops)})
+    it = Interp(ex, label=P)
+    out = call(it, it.target(FILE, "plan_state.backtrack"), me, pos)
+    left = me.fields["plan"]
+    if not failing:
+        ex.oblige(f"{P}.raises.nothing", not out.raised, kind="exceptional-postcondition")
+        ex.oblige(f"{P}.ensures.reverts_each_newer_operation_once_newest_first", calls == list(range(k - 1, pos - 1, -1)))
+        ex.oblige(f"{P}.ensures.plan_cut_at_the_position", list(left) == ops[:pos])
+    else:
+        ex.oblige(f"{P}.raises.the_failing_reverts_exception", out.raised_cls(Boom), kind="exceptional-postcondition")
+        ex.oblige(f"{P}.ensures.stops_at_the_failing_revert", calls == list(range(k - 1, k - 1 - failing, -1)))
+        ex.oblige(f"{P}.ensures.only_the_operations_already_reverted_are_cut_off", list(left) == ops[:k - (failing - 1)])
+
+
 def tasks():
     fns = [(FILE, n) for n in ("plan_state.backtrack", "add_op.apply", "add_op.revert", "remove_op.apply", "remove_op.revert",
                                "replace_op.apply", "replace_op.revert", "incref_forward_block_op.apply", "incref_forward_block_op.revert",
                                "decref_forward_block_op.apply", "decref_forward_block_op.revert")]
-    return [Task("C17.plan_state.backtrack", None, fns, enumerate=enum_histories)]
+    return [Task("C17.plan_state.backtrack", None, fns, enumerate=enum_histories),
+            Task("C17.operations", t_ops, fns[1:]),
+            Task("C17.backtrack", t_backtrack, fns[:1], bounded={"operations in the plan": 4, "note": "every position, every failing revert"})]
 
 
 REPLAY = {}
